@@ -2363,6 +2363,14 @@ class TupleParser:
             return [self.parse_embeddedObject(obj) for obj in val]
         if val is None:
             return None
+        if not isinstance(val, str):
+            # The value has been unpacked as a value of its (non-string)
+            # CIM type already
+            raise CIMXMLParseError(
+                _format("The EmbeddedObject attribute is only allowed on "
+                        "string typed elements, but the value is of type "
+                        "{0}", type(val)),
+                conn_id=self.conn_id)
 
         # Perform the un-embedding (may raise XMLParseError)
         tup_tree = xml_to_tupletree_sax(val, "embedded object", self.conn_id)
